@@ -85,7 +85,7 @@ void read_crs(
     if (row_beg < 0) row_beg = 0;
     if (row_end < 0) row_end = n;
 
-    precondition(row_beg >= 0 && row_end <= static_cast<ptrdiff_t>(n),
+    precondition(row_beg >= 0 && row_beg <= row_end && row_end <= static_cast<ptrdiff_t>(n),
             "Wrong subset of rows is requested");
 
     ptrdiff_t chunk = row_end - row_beg;
@@ -99,6 +99,14 @@ void read_crs(
     Ptr nnz;
     f.seekg(ptr_beg + n * sizeof(Ptr));
     precondition(read(f, nnz), "File I/O error");
+
+    // The row pointers come from the file: make sure they describe valid
+    // (possibly empty) ranges before they are used to index col and val.
+    precondition(ptr.front() >= 0 && ptr.back() <= nnz,
+            "Matrix file is corrupted (row pointers are out of range)");
+    for(ptrdiff_t i = 0; i < chunk; ++i)
+        precondition(ptr[i] <= ptr[i + 1],
+                "Matrix file is corrupted (row pointers are not monotone)");
 
     SizeT nnz_beg = ptr.front();
     if (nnz_beg) for(auto &p : ptr) p -= nnz_beg;
